@@ -211,9 +211,11 @@ class Gen:
             self.tags.append("module:mark")
         if rnd.random() < 0.2:
             out.append(rnd.choice(["# é comment with def fake(db):", "X = '@pytest.fixture'", "SCOPE = 'module'"]))
+        last_class = False
         for _ in range(rnd.randint(1, 5)):
             out.append("")
             r = rnd.random()
+            last_class = r >= 0.9
             if r < 0.4:
                 if rnd.random() < 0.12:
                     # a conditional / try-wrapped definition at module level
@@ -248,8 +250,20 @@ class Gen:
                 if rnd.random() < 0.3:
                     inner += ["    class TestInner:"] + self.function("        ", "test")
                     self.tags.append("class:nested")
+                    last_class = False
                 out += inner
         text = "\n".join(out) + "\n"
+        r = rnd.random()
+        if r < 0.12:
+            # the document ends WITHOUT a final newline, its last line being a one-line definition
+            # (the name's span is searched on a line that no following line start delimits)
+            tail_ind = "    " if last_class and rnd.random() < 0.7 else ""
+            text += "\n" + tail_ind + rnd.choice(DECOS[:5]) + "\n" + tail_ind + rnd.choice(["def", "async def"]) + " " + rnd.choice(NAMES) \
+                    + rnd.choice(["(): return 1", "(db): return db", "(): yield 1", "() -> int: return 2"])
+            self.tags.append("tail:oneline-def-no-newline")
+        elif r < 0.2:
+            text = text[:-1]
+            self.tags.append("tail:no-final-newline")
         r = rnd.random()
         if r < 0.1:
             text = text.replace("\n", "\r\n")
